@@ -616,6 +616,23 @@ type Violation struct {
 	Path  []Op
 }
 
+// safeStep turns a panic raised while a transition is executed or observed (inside the
+// implementation or the harness) into a violation of class "panic" instead of crashing the worker.
+func safeStep(step func(from *State, op Op) (*State, []Violation), st *State, op Op) (nx *State, vs []Violation) {
+	defer func() {
+		if p := recover(); p != nil {
+			full := append(append([]Op{}, st.Path...), op)
+			parts := make([]string, len(full))
+			for i, o := range full {
+				parts[i] = o.String()
+			}
+			nx = nil
+			vs = []Violation{{Class: "panic", Path: full, Msg: fmt.Sprintf("panic while executing or observing %s: %v\n    history: %s", op, p, strings.Join(parts, " ; "))}}
+		}
+	}()
+	return step(st, op)
+}
+
 // BFS explores from the empty router. maxLive bounds the number of registered routes of a state
 // that is expanded further (0 = unbounded); visit is called for every transition with a router on
 // which from.Path has been replayed (op not yet applied) and must apply the op itself through
@@ -656,7 +673,7 @@ func BFS(p *Pool, ops []Op, maxLive int, maxStates int, workers int, expired fun
 					}
 					var r res
 					for _, op := range ops {
-						nx, vs := step(st, op)
+						nx, vs := safeStep(step, st, op)
 						r.n++
 						r.viols = append(r.viols, vs...)
 						if nx != nil {
